@@ -40,6 +40,8 @@ import Gozod.Gen.Cert_tmo_1
 import Gozod.Gen.Cert_tmo_2
 import Gozod.Gen.Cert_tmo_3
 import Gozod.Gen.Cert_tmo_9
+import Gozod.Gen.Cert_ipv6_partial
+import Gozod.Gen.Cert_cidrv6_partial
 namespace Gozod.C20
 open Gozod Gozod.Re
 
@@ -221,6 +223,156 @@ theorem c20_base64url_pattern_witness : ¬ c20_base64url_pattern_full := fun h =
 example : Fmt.base64urlBadLen.run (b! "QUJDRA") = false ∧ Fmt.base64url.run (b! "QUJDRA") = true ∧
     Fmt.base64urlBadLen.run (b! "A") = true ∧ Fmt.base64urlBadLen.run (b! "QUI=") = false ∧
     Fmt.base64url.run (b! "QUI=") = true := by decide +kernel
+
+/-! ## IPv6 and CIDRv6 (RFC 4291 §2.2, `Fmt.ipv6` / `Fmt.cidrv6` in Model/FormatSpecV6.lean)
+
+  `regex.IPv6` validates `gozod.IPv6()` and is the pattern it exports; `regex.CIDRv6` is the pattern `gozod.CIDRv6()`
+  exports (its validator is `netip.ParsePrefix` + `Is6`).  Both patterns are RFC 4291 exactly on the strings that
+  contain neither '.' nor '%' (certificates over the restricted alphabet, `bisim_sound_R`), and wrong in three
+  ways on the others: a zone-id branch (`fe80:…%zone`), octets of the dotted quad with a leading zero, and only
+  two of the dotted-quad shapes. -/
+
+theorem sim_run_avoid (B : List Nat) (S Q : Spec) (abs : S.State → Q.State) (hsup : S.support = Q.support)
+    (hinit : abs S.init = Q.init)
+    (hstep : ∀ q c, B.elem c = false → (S.step q c).map abs = Q.step (abs q) c)
+    (hacc : ∀ q, S.acc q = Q.acc (abs q)) : ∀ s, avoids B s = true → S.run s = Q.run s := by
+  have hg : ∀ (o : Option S.State) c, B.elem c = false → (S.gstep o c).map abs = Q.gstep (o.map abs) c := by
+    intro o c hc
+    cases o with
+    | none => rfl
+    | some q =>
+      show (if S.support.elem c then S.step q c else none).map abs
+          = (if Q.support.elem c then Q.step (abs q) c else none)
+      rw [← hsup]
+      by_cases h : S.support.elem c = true
+      · rw [if_pos h, if_pos h]; exact hstep q c hc
+      · rw [if_neg h, if_neg h]; rfl
+  have hrun : ∀ (s : List Nat), avoids B s = true → ∀ (o : Option S.State),
+      (s.foldl S.gstep o).map abs = s.foldl Q.gstep (o.map abs) := by
+    intro s
+    induction s with
+    | nil => intro _ o; rfl
+    | cons c s ih =>
+      intro hs o
+      simp only [avoids, List.all_cons, Bool.and_eq_true, Bool.not_eq_true'] at hs
+      simp only [List.foldl_cons]; rw [ih (by simpa [avoids] using hs.2), hg o c hs.1]
+  intro s hs
+  have h := hrun s hs (some S.init)
+  simp only [Option.map, hinit] at h
+  unfold Spec.run Spec.runState
+  rw [← h]
+  cases s.foldl S.gstep (some S.init) with
+  | none => rfl
+  | some q => exact hacc q
+
+/-- forget what the current group would be worth as a decimal octet -/
+def forgetV (q : Fmt.V6St) : Fmt.V6St := if q.ph = 3 then { q with v := 256 } else q
+
+theorem ipv6Step_forget (q : Fmt.V6St) (c : Nat) (hc : c ≠ 46) :
+    (Fmt.ipv6StepG true q c).map forgetV = Fmt.ipv6StepG false (forgetV q) c := by
+  obtain ⟨ph, g, ell, n, v, k⟩ := q
+  by_cases h3 : ph = 3
+  · subst h3
+    simp only [Fmt.ipv6StepG, forgetV, Fmt.V6St.start, Fmt.V6St.digit, hc, if_true, if_false]
+    repeat' split
+    all_goals simp_all [Option.map, forgetV]
+  · simp only [Fmt.ipv6StepG, forgetV, Fmt.V6St.start, Fmt.V6St.digit, hc, h3, if_false]
+    repeat' split
+    all_goals simp_all [Option.map, forgetV]
+
+
+theorem ipv6Acc_forget (q : Fmt.V6St) : Fmt.ipv6Acc q = Fmt.ipv6Acc (forgetV q) := by
+  obtain ⟨ph, g, ell, n, v, k⟩ := q
+  simp only [forgetV]; split <;> rfl
+
+/-- among the strings without a '.', the definition needs rules 1 and 2 only -/
+theorem ipv6_hex_quot : ∀ s, avoids [46] s = true → Fmt.ipv6.run s = Fmt.ipv6Hex.run s :=
+  sim_run_avoid [46] Fmt.ipv6 Fmt.ipv6Hex forgetV rfl rfl
+    (fun q c hc => ipv6Step_forget q c (by intro h; subst h; simp [List.elem] at hc)) ipv6Acc_forget
+
+theorem cidrv6Step_forget (q : Fmt.V6St) (c : Nat) (hc : c ≠ 46) :
+    (Fmt.cidrv6StepG true q c).map forgetV = Fmt.cidrv6StepG false (forgetV q) c := by
+  have h := ipv6Step_forget q c hc
+  have ha := ipv6Acc_forget q
+  obtain ⟨ph, g, ell, n, v, k⟩ := q
+  by_cases h6 : ph = 6
+  · subst h6
+    simp only [Fmt.cidrv6StepG, forgetV, Fmt.V6St.digit]
+    repeat' split
+    all_goals simp_all [Option.map, forgetV]
+  · by_cases h3 : ph = 3
+    · subst h3
+      simp only [Fmt.cidrv6StepG, forgetV, if_true] at h ha ⊢
+      simp only [h6, if_false, ← ha]
+      repeat' split
+      all_goals first | exact h | simp_all [Option.map, forgetV]
+    · simp only [Fmt.cidrv6StepG, forgetV, h3, if_false] at h ha ⊢
+      simp only [h6, if_false]
+      repeat' split
+      all_goals first | exact h | simp_all [Option.map, forgetV]
+
+theorem cidrv6_hex_quot : ∀ s, avoids [46] s = true → Fmt.cidrv6.run s = Fmt.cidrv6Hex.run s :=
+  sim_run_avoid [46] Fmt.cidrv6 Fmt.cidrv6Hex forgetV rfl rfl
+    (fun q c hc => cidrv6Step_forget q c (by intro h; subst h; simp [List.elem] at hc))
+    (fun q => by obtain ⟨ph, g, ell, n, v, k⟩ := q; simp only [forgetV]; split <;> rfl)
+
+theorem avoids_dot {s : List Nat} (h : avoids [46, 37] s = true) : avoids [46] s = true := by
+  induction s with
+  | nil => rfl
+  | cons c s ih =>
+    simp only [avoids, List.all_cons, Bool.and_eq_true] at h ⊢
+    refine ⟨?_, by simpa [avoids] using ih (by simpa [avoids] using h.2)⟩
+    have h1 := h.1
+    simp only [List.elem, Bool.not_eq_true'] at h1 ⊢
+    cases hc : (c == 46)
+    · rfl
+    · rw [hc] at h1; cases h1
+
+/-- the full statement for the IPv6 validator / exported pattern; false on the pinned tree -/
+def c20_ipv6_full : Prop := ∀ s, accepts Gen.val_ipv6 s = Fmt.ipv6.run s
+def c20_ipv6_pattern_full : Prop := ∀ s, accepts Gen.pat_ipv6 s = Fmt.ipv6.run s
+def c20_cidrv6_pattern_full : Prop := ∀ s, accepts Gen.pat_cidrv6 s = Fmt.cidrv6.run s
+
+/-- on every string without '.' and '%' the validator's regex accepts exactly the RFC 4291 addresses -/
+theorem c20_ipv6_partial : ∀ s, avoids [46, 37] s = true → accepts Gen.val_ipv6 s = Fmt.ipv6.run s := fun s hs =>
+  (bisim_sound_R_full _ _ _ _ Gen.cert_ipv6_partial_ok s hs).trans (ipv6_hex_quot s (avoids_dot hs)).symm
+theorem c20_ipv6_pattern_partial : ∀ s, avoids [46, 37] s = true → accepts Gen.pat_ipv6 s = Fmt.ipv6.run s :=
+  c20_ipv6_partial
+theorem c20_cidrv6_pattern_partial : ∀ s, avoids [46, 37] s = true → accepts Gen.pat_cidrv6 s = Fmt.cidrv6.run s := fun s hs =>
+  (bisim_sound_R_full _ _ _ _ Gen.cert_cidrv6_partial_ok s hs).trans (cidrv6_hex_quot s (avoids_dot hs)).symm
+
+example : avoids [46, 37] (b! "2001:db8::8a2e:370:7334") = true ∧ Fmt.ipv6.run (b! "2001:db8::8a2e:370:7334") = true ∧
+    Fmt.ipv6.run (b! "1:2:3:4:5:6:7:8") = true ∧ Fmt.ipv6.run (b! "1:2:3:4:5:6:7::") = true ∧ Fmt.ipv6.run (b! "::") = true ∧
+    Fmt.ipv6.run (b! "1:2:3:4:5:6:7") = false ∧ Fmt.ipv6.run (b! "1::2::3") = false ∧ Fmt.ipv6.run (b! "1:2:3:4:5:6:7:8::") = false ∧
+    Fmt.ipv6.run (b! "12345::") = false ∧ Fmt.ipv6.run (b! ":1::2") = false ∧ Fmt.ipv6.run (b! "::ffff:1.2.3.4") = true ∧
+    Fmt.ipv6.run (b! "1:2:3:4:5:6:1.2.3.4") = true ∧ Fmt.ipv6.run (b! "1:2:3:4:5:6:7:1.2.3.4") = false ∧
+    Fmt.ipv6.run (b! "::1.2.3.256") = false ∧ Fmt.ipv6.run (b! "::01.2.3.4") = false ∧ Fmt.ipv6.run (b! "fe80::1%eth0") = false ∧
+    Fmt.cidrv6.run (b! "2001:db8::/32") = true ∧ Fmt.cidrv6.run (b! "::/129") = false ∧ Fmt.cidrv6.run (b! "::/00") = false := by
+  decide +kernel
+
+/-- the three ways in which `regex.IPv6` is not RFC 4291: a zone id is taken, a leading zero in the dotted quad is taken,
+    six groups followed by a dotted quad are refused -/
+theorem c20_ipv6_witnesses :
+    accepts Gen.val_ipv6 (b! "fe80::1%eth0") = true ∧ Fmt.ipv6.run (b! "fe80::1%eth0") = false ∧
+    accepts Gen.val_ipv6 (b! "::01.2.3.4") = true ∧ Fmt.ipv6.run (b! "::01.2.3.4") = false ∧
+    accepts Gen.val_ipv6 (b! "1:2:3:4:5:6:1.2.3.4") = false ∧ Fmt.ipv6.run (b! "1:2:3:4:5:6:1.2.3.4") = true := by
+  decide +kernel
+
+theorem c20_ipv6_witness : ¬ c20_ipv6_full := fun h =>
+  absurd (h (b! "1:2:3:4:5:6:1.2.3.4")) (by rw [c20_ipv6_witnesses.2.2.2.2.1, c20_ipv6_witnesses.2.2.2.2.2]; decide)
+theorem c20_ipv6_pattern_witness : ¬ c20_ipv6_pattern_full := c20_ipv6_witness
+
+theorem c20_cidrv6_pattern_witnesses :
+    accepts Gen.pat_cidrv6 (b! "fe80::a%eth0/127") = true ∧ Fmt.cidrv6.run (b! "fe80::a%eth0/127") = false ∧
+    accepts Gen.pat_cidrv6 (b! "::01.2.3.4/120") = true ∧ Fmt.cidrv6.run (b! "::01.2.3.4/120") = false ∧
+    accepts Gen.pat_cidrv6 (b! "1:2:3:4:5:6:1.2.3.4/64") = false ∧ Fmt.cidrv6.run (b! "1:2:3:4:5:6:1.2.3.4/64") = true := by
+  decide +kernel
+
+theorem c20_cidrv6_pattern_witness : ¬ c20_cidrv6_pattern_full := fun h =>
+  absurd (h (b! "1:2:3:4:5:6:1.2.3.4/64")) (by rw [c20_cidrv6_pattern_witnesses.2.2.2.2.1, c20_cidrv6_pattern_witnesses.2.2.2.2.2]; decide)
+
+/-- the CIDRv6 validator (netip.ParsePrefix ∧ Is6) is modelled by the definition itself (tie: correspondence) -/
+theorem c20_cidrv6 : ∀ s, Parsers.goCIDRv6 s = Fmt.cidrv6.run s := fun _ => rfl
 
 /-! ## option-taking constructors
 
